@@ -12,13 +12,16 @@ RULE = ("vrl x object-name length x payload length (0..40 and k*cap+{-2..2}) x k
         "{plain, 01, 00, ff}, single payloads; plus all ordered sequences of 2..3 payloads from a 6-length window over "
         "1..2 NO-FORMAT objects in every interleaving; a third of the cases is written twice with the same objects, another third "
         "twice with the payloads changed in between (bytearrays in place, others through the record's data attribute), "
-        "and the second file is checked; non-trivial = file written and type-1 IFLRs compared")
+        "and the second file is checked; plus 2..3 logical files with 0..2 payloads each, added in every interleaving "
+        "across the files (each file must hold exactly its own); non-trivial = file written and type-1 IFLRs compared")
 ASSUMPTIONS = ["strict reader mc/rp66.py", "reference model mc/model.py"]
 
 
 def shards(tier):
     vr = [32, 64, 8192] if tier == 'quick' else [32, 34, 40, 64, 100, 128, 1024, 8192, 16384]
-    return [{'vrl': v, 'nlen': n, 'part': p} for v in vr for n in (1, 8, 20) for p in ('single', 'seq')]
+    return [{'vrl': v, 'nlen': n, 'part': p} for v in vr for n in (1, 8, 20) for p in ('single', 'seq')] + \
+        [{'vrl': 8192, 'nlen': 8, 'part': 'lfs', 'counts': list(c)}
+         for k in (2, 3) for c in itertools.product((0, 1, 2), repeat=k) if any(c)]
 
 
 def bounds(tier):
@@ -41,7 +44,30 @@ def enc(kind, b):
     return bytes(x % 95 + 32 for x in b).decode('ascii')
 
 
+def _merges(counts):
+    """All interleavings of counts[i] payloads of logical file i (each file's own order kept)."""
+    def rec(left, acc):
+        if not any(left):
+            yield list(acc)
+            return
+        for i, n in enumerate(left):
+            if n:
+                left[i] -= 1
+                acc.append(i)
+                yield from rec(left, acc)
+                acc.pop()
+                left[i] += 1
+    yield from rec(list(counts), [])
+
+
 def cases(shard, tier):
+    if shard['part'] == 'lfs':
+        # several logical files, each with its own NO-FORMAT object (equally named: distinct set names) and 0..2
+        # payloads, the payloads added in every interleaving across the files
+        for order in _merges(shard['counts']):
+            for frames in (True,):
+                yield {'part': 'lfs', 'counts': shard['counts'], 'order': order, 'frames': frames}
+        return
     vrl, nlen = shard['vrl'], shard['nlen']
     cap = vrl - 8
     name = ('NOFORMAT-OBJECT-NAME-X' * 3)[:nlen]
@@ -65,6 +91,48 @@ def cases(shard, tier):
                         continue        # symmetry: first payload always goes to object 0
                     yield {'vrl': vrl, 'names': [name, name[:-1] + 'Y' if nlen > 1 else 'Y'],
                            'seq': [[o, n, 'bytes', ('01', 'plain', '00')[i % 3]] for i, (o, n) in enumerate(zip(objs, lens))]}
+
+
+def lfs_spec(case):
+    k = len(case['counts'])
+    ops = []
+    for i in range(k):
+        L = f'L{i}'
+        ops.append({'op': 'lf', 'h': L, 'kw': {'fh_id': f'LF-{i}', 'fh_sequence_number': i + 1}})
+        ops.append(S.op_origin(f'O{i}', f'ORIGIN-{i}', lf=L, set_name=f'S{i}'))
+        if case['frames']:
+            ops.append(S.op_add('channel', f'C{i}', 'CH', lf=L, set_name=f'S{i}',
+                                data=S.arr_spec('uint8', [i + 1], list(range(i + 1)))))
+            ops.append(S.op_add('frame', f'F{i}', 'FR', lf=L, set_name=f'S{i}', channels=[{'$ref': f'C{i}'}]))
+        if case['counts'][i]:
+            ops.append(S.op_add('no_format', f'N{i}', 'NOFORMAT', lf=L, set_name=f'S{i}'))
+    seen = [0] * k
+    for j, i in enumerate(case['order']):
+        ops.append({'op': 'nfdata', 'lf': f'L{i}', 'nf': f'N{i}', 'h': f'R{j}',
+                    'data': enc(('bytes', 'str', 'bytearray')[j % 3], payload(5 + 3 * i + seen[i], 'plain', 16 * i + seen[i]))})
+        seen[i] += 1
+    return {'sul': {'max_record_length': 8192}, 'ops': ops, 'write': {}}
+
+
+def run_lfs(case):
+    sp = lfs_spec(case)
+    res = S.run_spec(sp)
+    if res['failed_at'] is not None:
+        return Outcome('build-raised', [("C16:lfs:build-raised", f"{res['status'][-1]} | {case}")], False)
+    if res['write'] != 'ok':
+        return Outcome('write-raised', [("C16:lfs:write-raised", f"{res['write']} | {case}")], False)
+    viol = []
+    try:
+        lfs = R.split_logical_files(R.parse_physical(res['data']))
+        m = M.Model(sp)
+        if len(lfs) != len(m.lfs):
+            viol.append(("C16:lfs:count", f"{len(lfs)} logical files read, {len(m.lfs)} created | {case}"))
+        for i, (mlf, lf) in enumerate(zip(m.lfs, lfs)):
+            for code, d in M.check_noformat(m, mlf, lf):
+                viol.append((f"C16:lfs:{code}", f"logical file {i}: {d} | {case}"))
+    except R.FormatError as e:
+        viol.append((f"C16:unparsable:{e.code}", f"{e} | {case}"))
+    return Outcome('ok:lfs:%d' % len(case['counts']), viol, True, digest=sha(res['data']))
 
 
 def make_spec(case):
@@ -118,6 +186,8 @@ def _write_twice(sp, change=False):
 
 
 def run_case(case):
+    if case.get('part') == 'lfs':
+        return run_lfs(case)
     sp = make_spec(case)
     # every third case of a shard is written twice with the same objects; the second file is the one that is checked
     k = (sum(n for _, n, _, _ in case['seq']) + len(case['seq'])) % 3
